@@ -80,51 +80,95 @@ def sym_inc(bits):
 
 
 def rounding_cases(B, nk, full=True, key_ids=()):
-    """yield (assignment {literal index: 0/1}, expected kept bits (nk, msb first), case name) for the encoding string B"""
+    """yield (assignment {literal index: 0/1}, expected kept bits (nk, msb first), case name) for the encoding string B.
+    A literal may occur more than once in B (a product of a symbolic operand with a two-bit constant): every case is therefore finalised by
+    substituting its assignment into the whole string and dropped when the substitution contradicts the case (no input satisfies it)."""
     if len(B) <= nk:
         yield {}, list(B) + [0] * (nk - len(B)), 'exact'
         return
+    for asg, inc, name, chk in _rounding_case_candidates(B, nk, full, key_ids):
+        Bf = subst(B, asg)
+        x, r, sticky = Bf[nk - 1], Bf[nk], Bf[nk + 1:]
+        xv, rv, cls = chk
+        if (not is_lit(x) and x != xv) or (not is_lit(r) and r != rv) or is_lit(x) or is_lit(r):
+            continue
+        if cls == 'tie' and any(b != 0 for b in sticky):
+            continue
+        if isinstance(cls, tuple):         # ('top', j): sticky literal j is the highest set sticky bit
+            seen_one = False
+            ok = True
+            for b in sticky:
+                if b == 1:
+                    seen_one = True
+                    break
+                if is_lit(b):
+                    ok = False
+                    break
+            if not ok or not seen_one:
+                continue
+        if cls == 'ones' and not any(b == 1 for b in sticky):
+            continue
+        kept = Bf[:nk]
+        yield asg, (sym_inc(kept) if inc else kept), name
+
+
+def _rounding_case_candidates(B, nk, full, key_ids):
     x, r, sticky = B[nk - 1], B[nk], B[nk + 1:]
     sticky_const_one = any(b == 1 for b in sticky)
-    st_lits = [b for b in sticky if is_lit(b)]
+    st_lits = []
+    for b in sticky:
+        if is_lit(b) and not any(b[2] == c[2] for c in st_lits):
+            st_lits.append(b)
     for xv in ((0, 1) if is_lit(x) else (x,)):
         for rv in ((0, 1) if is_lit(r) else (r,)):
             asg = {}
             if is_lit(x):
                 setbit(asg, x, xv)
             if is_lit(r):
+                if r[2] in asg and asg[r[2]] != ((1 - rv) if r[3] else rv):
+                    continue
                 setbit(asg, r, rv)
             kept = subst(B[:nk], asg)
             if rv == 0:
-                yield dict(asg), kept, 'x=%d r=0' % xv
+                yield dict(asg), False, 'x=%d r=0' % xv, (xv, 0, None)
                 continue
             if xv == 0:
                 if sticky_const_one:
-                    yield dict(asg), sym_inc(kept), 'x=0 r=1 sticky(const)'
+                    yield dict(asg), True, 'x=0 r=1 sticky(const)', (0, 1, 'ones')
                     continue
-                # tie
                 a2 = dict(asg)
+                bad = False
                 for b in st_lits:
+                    if b[2] in a2 and a2[b[2]] != (1 if b[3] else 0):
+                        bad = True
                     setbit(a2, b, 0)
-                yield a2, kept, 'x=0 r=1 tie'
-                # highest set sticky bit = j
+                if not bad:
+                    yield a2, False, 'x=0 r=1 tie', (0, 1, 'tie')
                 idxs = list(range(len(st_lits)))
                 if not full and len(idxs) > 3:
-                    # sampled: first / middle / last sticky bit, plus the structurally interesting positions named by the caller
                     idxs = sorted({0, len(idxs) // 2, len(idxs) - 1} | {i for i, b in enumerate(st_lits) if b[2] in key_ids})
                 for j in idxs:
                     a3 = dict(asg)
+                    bad = False
                     for b in st_lits[:j]:
+                        if b[2] in a3 and a3[b[2]] != (1 if b[3] else 0):
+                            bad = True
                         setbit(a3, b, 0)
-                    setbit(a3, st_lits[j], 1)
-                    yield a3, sym_inc(kept), 'x=0 r=1 sticky@%d' % j
+                    bj = st_lits[j]
+                    if bj[2] in a3 and a3[bj[2]] != (0 if bj[3] else 1):
+                        bad = True
+                    setbit(a3, bj, 1)
+                    if not bad:
+                        yield a3, True, 'x=0 r=1 sticky@%d' % j, (0, 1, ('top', j))
                 continue
-            # xv == 1, rv == 1: round up whatever the sticky bits are; split on the run of ones above x
             run = []
             i = nk - 2
             while i >= 0 and is_lit(kept[i]):
-                run.append(kept[i])
-                i -= 1
+                if not any(kept[i][2] == c[2] for c in run):
+                    run.append(kept[i])
+                    i -= 1
+                else:
+                    break
             ts = list(range(len(run) + 1))
             if not full and len(ts) > 4:
                 ts = [0, 1, len(ts) // 2, len(ts) - 1]
@@ -134,8 +178,7 @@ def rounding_cases(B, nk, full=True, key_ids=()):
                     setbit(a4, b, 1)
                 if t < len(run):
                     setbit(a4, run[t], 0)
-                k2 = subst(B[:nk], a4)
-                yield a4, sym_inc(k2), 'x=1 r=1 ones=%d%s' % (t, '' if t < len(run) else '(all)')
+                yield a4, True, 'x=1 r=1 ones=%d%s' % (t, '' if t < len(run) else '(all)'), (1, 1, None)
 
 
 def clamp_const(bits, nk):
@@ -964,7 +1007,7 @@ def parallel_quire_to_posit(ctx, prog, rule, q, frac_bits, full, p_step=1, worke
 # ------------------------------------------------------------------------------------------------ one symbolic operand: a (+) b with a constant
 
 def _sym_sum(abits, bbits):
-    """a + b on position -> bit maps (a constant, b constants / literals); None if a literal meets a one or a carry (then not a routing)"""
+    """a + b on position -> bit maps (constants / literals); None if a literal meets a one, another literal or a carry (then not a routing)"""
     lo = min(list(abits) + list(bbits))
     hi = max(list(abits) + list(bbits)) + 1
     out = {}
@@ -972,10 +1015,13 @@ def _sym_sum(abits, bbits):
     for pos in range(lo, hi + 1):
         x = abits.get(pos, 0)
         y = bbits.get(pos, 0)
-        if is_lit(y):
-            if x != 0 or carry != 0:
+        if is_lit(x) or is_lit(y):
+            if is_lit(x) and is_lit(y):
                 return None
-            out[pos] = y
+            other = y if is_lit(x) else x
+            if other != 0 or carry != 0:
+                return None
+            out[pos] = x if is_lit(x) else y
             continue
         t = x + y + carry
         out[pos] = t & 1
@@ -1022,7 +1068,7 @@ def _frac_len(pty, scale):
     return max(0, pty.bits - 1 - reg - pty.es)
 
 
-def add_cells(pty, full, scales=None, gmax=None, op='add', t=0):
+def add_cells(pty, full, scales=None, gmax=None, op='add', t=0, fd=0):
     """cells for a + b, a > b > 0: a = 2^s * 1.F constant (F = 0 or all ones), b any posit of the regime cell g+1 binades below the lowest
     set bit region of a such that the sum is a routing of b's bits; then the rounding cases of the sum.
     yields (name, a_encoding, b bits msb first, expected n-1 bits)"""
@@ -1052,6 +1098,10 @@ def add_cells(pty, full, scales=None, gmax=None, op='add', t=0):
                 if p.decode(p.encode(Fraction(2) ** sbi)) != Fraction(2) ** sbi:
                     continue
                 lits0 = [lit(fb - 1 - i) for i in range(fb)]
+                if fd:
+                    # the product is b * (1 + 2^-fd): b keeps only its top fd - 1 fraction bits (the rest constant zero) so that the two copies
+                    # of its significand do not overlap: a routing with set bits at the top and fd places further down
+                    lits0 = [lit(fb - 1 - i) if i < fd - 1 else 0 for i in range(fb)]
                 kb = sbi >> es
                 eb = sbi - (kb << es)
                 regb = [1] * (kb + 1) + [0] if kb >= 0 else [0] * (-kb) + [1]
@@ -1062,11 +1112,23 @@ def add_cells(pty, full, scales=None, gmax=None, op='add', t=0):
                     if sb >= s - 1:
                         continue        # cancellation of the leading bit: the position of the result's leading one is not fixed by the cell
                     variants = [(' frac=0', [0] * fb, sb)]
-                    js = list(range(fb)) if (full or fb <= 4) else sorted({0, 1, fb // 2, fb - 1})
+                    jlo = (fb - (fd - 1)) if fd else 0          # with a two-bit factor only the top fd - 1 fraction bits of b are free
+                    js = list(range(max(0, jlo), fb)) if (full or fb <= 4) else sorted({j_ for j_ in (jlo, jlo + 1, (jlo + fb) // 2, fb - 1) if max(0, jlo) <= j_ < fb})
                     for j in js:
                         variants.append((' low@%d' % j, [lit(fb - 1 - i) if (fb - 1 - i) > j else (1 if (fb - 1 - i) == j else 0) for i in range(fb)], sb - fb + j))
+                if fd and op == 'sub':
+                    # lowest set bit of the product b * (1 + 2^-fd): that of the lower copy
+                    variants = [(vn, ls, (l_ - fd)) for vn, ls, l_ in variants]
                 for vname, lits, l in variants:
+                    if fd and any(is_lit(x) and (fb - 1 - i) < fb - (fd - 1) for i, x in enumerate(lits)):
+                        continue        # a partition literal outside the kept top bits
+                    if fd:
+                        lits = [x if i < fd - 1 else 0 for i, x in enumerate(lits)] if op == 'add' else lits
                     bv = _value_bits(sb, lits)
+                    if fd:
+                        bv = _sym_sum(bv, _value_bits(sb - fd, lits))
+                        if bv is None:
+                            continue
                     sm = _sym_sum(abits, bv) if op == 'add' else _sym_diff(abits, bv, l)
                     if sm is None:
                         continue
@@ -1191,7 +1253,7 @@ FMA_VARIANTS = {
 }
 
 
-def check_fma(ctx, prog, rule, label, path, pty, fname, variant, full, scales=None, t=0, seed=1):
+def check_fma(ctx, prog, rule, label, path, pty, fname, variant, full, scales=None, t=0, seed=1, fd=0):
     """fused family with one symbolic operand: x*y+z etc. where one factor is the constant 2^t, the other every posit b of a regime cell and
     the addend a constant c = 2^s * 1.0 / 2^s * 1.1..1 such that the exact result c +/- 2^t*b is a routing of b's bits."""
     import collections
@@ -1201,8 +1263,9 @@ def check_fma(ctx, prog, rule, label, path, pty, fname, variant, full, scales=No
     P = pty.posit
     n = pty.bits
     family, build, res_neg = FMA_VARIANTS[fname][variant]
-    pw_enc = P.encode(Fraction(2) ** t)
-    if P.decode(pw_enc) != Fraction(2) ** t:
+    pwv = Fraction(2) ** t * (1 + (Fraction(1, 1 << fd) if fd else 0))
+    pw_enc = P.encode(pwv)
+    if P.decode(pw_enc) != pwv:
         return stats
 
     pad = getattr(pty, 'pad', 0)
@@ -1239,14 +1302,14 @@ def check_fma(ctx, prog, rule, label, path, pty, fname, variant, full, scales=No
             vals = [P.decode(result_int(a).uval() >> pad) for a in args]
             return args, '%s(%s)' % (fname, ', '.join('%#x' % result_int(a).uval() for a in args)), P.encode(real(fname, vals)) << pad, lambda a: I.run(path, a, gargs)
         return concrete
-    for cname, c_enc, bits, want in add_cells(pty, full, scales, op=family, t=t):
+    for cname, c_enc, bits, want in add_cells(pty, full, scales, op=family, t=t, fd=fd):
         fa_ = {}
         u = 0
         for b in bits:
             if is_lit(b):
                 fa_[b[2]] = rng.getrandbits(1)
             u = (u << 1) | (fa_[b[2]] if is_lit(b) else b)
-        pv = P.decode(u) * Fraction(2) ** t
+        pv = P.decode(u) * pwv
         assert P.encode((P.decode(c_enc) + pv) if family == 'add' else (P.decode(c_enc) - pv)) == instantiate(want, fa_), ('oracle mismatch', label, cname)
 
         def mk(bits=bits, c_enc=c_enc):
@@ -1256,7 +1319,7 @@ def check_fma(ctx, prog, rule, label, path, pty, fname, variant, full, scales=No
             for a2, sub in refine_cells(list(reversed(bits)), want):
                 b2 = subst(bits, a2)
                 yield sub, (lambda b2=b2, c_enc=c_enc: args_for(c_enc, posit_input(pty, b2, False, pty.tykey, pad), posit_input(pty, b2, True, pty.tykey, pad))), [0] + subst(want, a2) + [0] * pad, mkc(c_enc, b2)
-        decide(ctx, I, rule, label, 't=%d v%d %s' % (t, variant, cname), path, mk, gargs, res_neg, [0] + want + [0] * pad, mkc(c_enc, bits), stats, subs)
+        decide(ctx, I, rule, label, 't=%d%s v%d %s' % (t, (' f=1+2^-%d' % fd) if fd else '', variant, cname), path, mk, gargs, res_neg, [0] + want + [0] * pad, mkc(c_enc, bits), stats, subs)
     return stats
 
 
